@@ -1071,6 +1071,34 @@ func init() {
 			}
 			return mk(OFpTrunc, 0, t)
 		},
+		// floor / ceil through the truncation: t = trunc(x); floor = t > x ? t-1 : t; ceil = t < x ? t+1 : t
+		// (NaN, infinities and values beyond 2^52 are their own truncation, so both comparisons are false)
+		"math.Floor": func(e *Exec, c *frame, a []Value) Value {
+			f := func(x *Term) *Term {
+				if x.conc() {
+					return cFP(math.Floor(x.f()), 64)
+				}
+				t := mk(OFpTrunc, 0, x)
+				return iteT(mk(OFpLt, 0, x, t), mk(OFpSub, 0, t, cFP(1, 64)), t)
+			}
+			if r, ok := fdApply1(a[0].(*Term), f); ok {
+				return r
+			}
+			return f(a[0].(*Term))
+		},
+		"math.Ceil": func(e *Exec, c *frame, a []Value) Value {
+			f := func(x *Term) *Term {
+				if x.conc() {
+					return cFP(math.Ceil(x.f()), 64)
+				}
+				t := mk(OFpTrunc, 0, x)
+				return iteT(mk(OFpLt, 0, t, x), mk(OFpAdd, 0, t, cFP(1, 64)), t)
+			}
+			if r, ok := fdApply1(a[0].(*Term), f); ok {
+				return r
+			}
+			return f(a[0].(*Term))
+		},
 		"math.Min": func(e *Exec, c *frame, a []Value) Value {
 			x, y := a[0].(*Term), a[1].(*Term)
 			f := func(x, y *Term) *Term {
